@@ -1,6 +1,7 @@
 """The grammar's user actions (bodies as lalrpop copies them into aidl.rs, whitespace-normalised) -> the hand-written
 Coq function of Model/Actions.v that models each, with the names of the bound symbols it takes, in order.
 An action body that is not listed here makes the translator fail (the model then stays at the last good Gen/ files)."""
+# keys: the body text with comments removed and whitespace collapsed (lalrpop_rs.norm)
 USER_ACTIONS = {
     '{ oi.map(|item| ast::Aidl { package: p, imports: vi, declared_parcelables: vdp, item, }) }':
         ('act_OptAidl', ['p', 'vi', 'vdp', 'oi']),
@@ -18,7 +19,7 @@ USER_ACTIONS = {
         ('act_ItemEnum', ['e']),
     '{ if let Some(d) = Diagnostic::from_error_recovery("Invalid item", lookup, __0) { diagnostics.push(d); } Ok(None) }':
         ('act_ErrItem', ['__0']),
-    '{ // Convert Vec<Option<InterfaceElement>> into Vec<InterfaceElement> let elements: Vec<ast::InterfaceElement> = v.into_iter().flatten().collect(); ast::Interface { oneway: oneway.is_some(), name: s.into(), elements, annotations, doc: javadoc::get_javadoc(input, p0), full_range: ast::Range::new(&lookup, fp1, fp2), symbol_range: ast::Range::new(&lookup, sp1, sp2), } }':
+    '{ let elements: Vec<ast::InterfaceElement> = v.into_iter().flatten().collect(); ast::Interface { oneway: oneway.is_some(), name: s.into(), elements, annotations, doc: javadoc::get_javadoc(input, p0), full_range: ast::Range::new(&lookup, fp1, fp2), symbol_range: ast::Range::new(&lookup, sp1, sp2), } }':
         ('act_Interface', ['p0', 'annotations', 'fp1', 'oneway', 'sp1', 's', 'sp2', 'v', 'fp2']),
     'Some(ast::InterfaceElement::Method(m))':
         ('act_IEMethod', ['m']),
@@ -26,7 +27,7 @@ USER_ACTIONS = {
         ('act_IEConst', ['c']),
     '{ if let Some(d) = Diagnostic::from_error_recovery("Invalid interface element", lookup, __0) { diagnostics.push(d); } Ok(None) }':
         ('act_ErrIE', ['__0']),
-    '{ // Convert Vec<Option<ParcelableElement>> into Vec<ParcelableElement> let elements: Vec<ast::ParcelableElement> = v.into_iter().flatten().collect(); ast::Parcelable { name: s.into(), elements, annotations, doc: javadoc::get_javadoc(input, p0), full_range: ast::Range::new(&lookup, fp1, fp2), symbol_range: ast::Range::new(&lookup, sp1, sp2), } }':
+    '{ let elements: Vec<ast::ParcelableElement> = v.into_iter().flatten().collect(); ast::Parcelable { name: s.into(), elements, annotations, doc: javadoc::get_javadoc(input, p0), full_range: ast::Range::new(&lookup, fp1, fp2), symbol_range: ast::Range::new(&lookup, sp1, sp2), } }':
         ('act_Parcelable', ['p0', 'annotations', 'fp1', 'sp1', 's', 'sp2', 'v', 'fp2']),
     'Some(ast::ParcelableElement::Field(f))':
         ('act_PEField', ['f']),
@@ -34,7 +35,7 @@ USER_ACTIONS = {
         ('act_PEConst', ['c']),
     '{ if let Some(d) = Diagnostic::from_error_recovery("Invalid parcelable element", lookup, __0) { diagnostics.push(d); } Ok(None) }':
         ('act_ErrPE', ['__0']),
-    '{ // Convert Vec<Option<EnumElement>> into Vec<EnumElement> let elements: Vec<ast::EnumElement> = v.into_iter().flatten().collect(); ast::Enum { name: s.into(), elements, annotations, doc: javadoc::get_javadoc(input, p0), full_range: ast::Range::new(&lookup, fp1, fp2), symbol_range: ast::Range::new(&lookup, sp1, sp2), } }':
+    '{ let elements: Vec<ast::EnumElement> = v.into_iter().flatten().collect(); ast::Enum { name: s.into(), elements, annotations, doc: javadoc::get_javadoc(input, p0), full_range: ast::Range::new(&lookup, fp1, fp2), symbol_range: ast::Range::new(&lookup, sp1, sp2), } }':
         ('act_Enum', ['p0', 'annotations', 'fp1', 'sp1', 's', 'sp2', 'v', 'fp2']),
     'Some(el)':
         ('act_SomeEnumElement', ['el']),
